@@ -1045,3 +1045,45 @@ fault("c17-dollar-name-ends-at-any-blank", "C17", "R17k",
        "\t\t\t\t\t\t\tendPos = min ([p for p in (expr.find (c, position + 1) for c in ' \\t\\n') if p != -1] or [len (expr)])\n"))
 fault("c20-context-manager-swallows", "C20", "R20f",
       (PBASE, "class BaseGopherProtocol:\n", "class _Quiet:\n    def __enter__(self):\n        return self\n\n    def __exit__(self, *exc):\n        return len(exc)\n\n\nclass BaseGopherProtocol:\n"))
+
+# ======================================================================= round j (R03b element taint, R04k, R06m, R07p, R08g, R09d, R12h, R15j, R18h, R19c with blocks, R20g)
+fault("c03-header-number-parsed-unguarded", "C03", "R03b",
+      (WAP, "        fakefile = io.BytesIO()\n", "        limit = int(self.httpheaders.get(\"x-up-devcap-max-pdu\", \"0\"))\n        fakefile = io.BytesIO()\n"))
+twin("c03-twin-header-number-parsed-guarded", "C03",
+     (WAP, "        fakefile = io.BytesIO()\n",
+      "        try:\n            limit = int(self.httpheaders.get(\"x-up-devcap-max-pdu\", \"0\"))\n        except ValueError:\n            limit = 0\n        fakefile = io.BytesIO()\n"))
+fault("c04-document-written-to-the-descriptor", "C04", "R04k",
+      (BASE, "                fd.write(data)\n", "                os.write(fd.fileno(), data)\n"))
+twin("c04-twin-document-written-and-flushed", "C04",
+     (BASE, "                fd.write(data)\n", "                fd.write(data)\n                fd.flush()\n"))
+fault("c06-request-body-short-read", "C06", "R06m",
+      (SPAR, "data = self.rfile.read(content_length)", "data = self.rfile.readline(content_length)"))
+fault("c07-filter-refuses-one-letter-names", "C07", "R07p",
+      (BASE, "            and not self.selector.endswith(\"/.\")\n", "            and not re.search(\"/.$\", self.selector)\n"),
+      (BASE, "import os.path\n", "import os.path\nimport re\n"))
+fault("c08-link-value-cut-at-second-equals", "C08", "R08g",
+      (UMN, "                entry.setname(line[5:])\n", "                entry.setname(line.split(\"=\")[1])\n"))
+fault("c09-directory-named-like-a-map-file", "C09", "R09d",
+      (GMAP, "                stat.S_ISDIR(self.statresult[stat.ST_MODE])\n                and self.vfs.isfile", "                stat.S_ISDIR(self.statresult[stat.ST_MODE])\n                and not self.getselector().endswith(\".gophermap\")\n                and self.vfs.isfile"))
+fault("c12-log-text-joined-before-formatting", "C12", "R12h",
+      (GEXC, "        \"%s [%s/%s] EXCEPTION %s: %s\"\n        % (ipaddr, protostr, handlerstr, exceptionclass, str(exception))\n",
+       "        (\"%s [%s/%s] EXCEPTION %s: \" + str(exception))\n        % (ipaddr, protostr, handlerstr, exceptionclass)\n"))
+fault("c15-empty-side-file-looks-absent", "C15", "R15j",
+      (GE, "        if name in self.ea:\n            return self.ea[name]\n        return default\n", "        return self.ea.get(name) or default\n"))
+fault("c18-version-compared-as-text", "C18", "R18h",
+      (TALPY, "if sys.version_info[0] > 3 or (sys.version_info[0] == 3 and sys.version_info[1] > 3):\n", "if sys.version[:3] > \"3.3\":\n"))
+twin("c18-twin-version-compared-as-tuple", "C18",
+     (TALPY, "if sys.version_info[0] > 3 or (sys.version_info[0] == 3 and sys.version_info[1] > 3):\n", "if sys.version_info >= (3, 4):\n"))
+twin("c18-twin-version-test-removed", "C18",
+     (TALPY, "if sys.version_info[0] > 3 or (sys.version_info[0] == 3 and sys.version_info[1] > 3):\n\tHTML_ENTITIES_PRE_EXPANDED = True\nelse:\n\tHTML_ENTITIES_PRE_EXPANDED = False\n",
+      "HTML_ENTITIES_PRE_EXPANDED = True\n"))
+fault("c19-drop-inside-a-swallowing-stack", "C19", "R19c",
+      (INIT, "    init_security(config)\n", "    with contextlib.ExitStack() as stack:\n        stack.push(lambda *exc: bool(config.has_option(\"pygopherd\", \"pidfile\")))\n        init_security(config)\n"),
+      (INIT, "import mimetypes\n", "import contextlib\nimport mimetypes\n"))
+twin("c19-twin-drop-inside-a-cleanup-stack", "C19",
+     (INIT, "    init_security(config)\n", "    with contextlib.ExitStack() as stack:\n        stack.callback(logger.log, \"start-up steps done\")\n        init_security(config)\n"),
+     (INIT, "import mimetypes\n", "import contextlib\nimport mimetypes\n"))
+fault("c20-response-buffered-past-the-try", "C20", "R20g",
+      (SERVER, "    server: BaseServer\n\n    def handle(self) -> None:\n", "    server: BaseServer\n    wbufsize = 8192\n\n    def handle(self) -> None:\n"))
+twin("c20-twin-response-explicitly-unbuffered", "C20",
+     (SERVER, "    server: BaseServer\n\n    def handle(self) -> None:\n", "    server: BaseServer\n    wbufsize = 0\n\n    def handle(self) -> None:\n"))
